@@ -128,7 +128,13 @@ def main(argv):
     seed = int(os.environ.get("VERIF_SEED", "0") or 0)
     t0 = time.time()
     mod = importlib.import_module("harness." + pid.lower())
-    parts = mod.partitions(tier, seed)
+    try:
+        parts = mod.partitions(tier, seed)
+    except Exception:
+        import traceback
+
+        print("HARNESS-ERROR: could not build the partitions from /repo's current tables:\n" + traceback.format_exc()[-1500:], file=sys.stderr)
+        return 3
     n_first = 0
     if tier == "thorough":
         # thorough = every partition of the quick tier first, then the (much larger) thorough space in a
